@@ -35,7 +35,7 @@ CHECKS = {
     'C06': ('fault_enumeration', '5 C06',
             'terminate / SIGKILL / SIGTERM / poison item at every enumerated point of the child loop and child kill at every line of '
             'the parent-side forwarding thread, three consumers (next_result loop, results_iter, raw wait+recv multiplexer); oracle: '
-            'delivered values are a prefix of the expected sequence and the stream always ends.', F + 'prefix + end-of-stream oracle'),
+            'delivered values are a prefix of the expected sequence and the stream always ends - also for a consumer that is already blocked on the stream when the fault happens or when a stuck worker is stopped by force.', F + 'prefix + end-of-stream oracle'),
     'C07': ('exploration', '5 C07',
             'Pool.run on 1-3 real persistent workers of mixed kinds with poison inputs, worker-specific failures, SIGKILL at seeded '
             'and directed instants (inside the pool bookkeeping functions), refusing enqueue_fn, extra pending 0-2; oracle: multiset '
@@ -46,7 +46,7 @@ CHECKS = {
             E + 'process-table + ground-truth oracle'),
     'C09': ('exploration', '5 C09',
             'Pool life-cycle histories (add / attach / run / run with an input fatal to every worker / restart_workers with and '
-            'without stuck workers / kill / stuck worker / failing registration or construction / exception in with-body / close / '
+            'without stuck workers / kill / stuck worker (optionally after an un-rebuildable result) / KeyboardInterrupt inside run / failing registration or construction / exception in with-body / close / '
             'terminate) x close_timeout x force; oracle: no child process survives the pool (pool workers and the whole process '
             'table), old children gone after a successful restart, per-run result multisets, nothing leaked by failed add_worker.', E + 'process-table oracle over histories'),
     'C10': ('fault_enumeration', '5 C10',
@@ -57,12 +57,11 @@ CHECKS = {
     'C11': ('fault_enumeration', '5 C11',
             'Real server on simos; the byte stream of a well-behaved client (recorded in the same run) replayed by a raw-socket '
             'client and cut at enumerated offsets with FIN/RST, plus faulty control-handshake steps, with a concurrent healthy '
-            'worker and sequences of faulty clients; oracle: server alive, a fresh plain round trip and a fresh request of the '
+            'worker and sequences of faulty clients, server started with and without close_on_none; oracle: server alive, a fresh plain round trip and a fresh request of the '
             'faulty client\'s kind (same context) succeed after every fault.',
             F + 'liveness oracle (fresh round trip within a simulated deadline)'),
     'C12': ('exploration', '5 C12',
-            '0-4 remote children in mixed states, stop by terminate() or SIGTERM at seeded / directed instants (while a worker is '
-            'being started); oracle: all descendants of the server gone from the process table, every parent-side worker dead with '
+            '0-4 remote children in mixed states (persistent ones optionally with a parent thread blocked in next_result()), stop by terminate() or SIGTERM at seeded / directed instants (SIGTERM handled at every line boundary of a worker start-up, a second stop while the server waits for a child inside its clean-up); oracle: the calling process is never signalled, all descendants of the server gone from the process table, every parent-side worker dead with '
             'has_error True without blocking, finished workers keep their outcome.', E + 'process-table oracle'),
     'C15': ('exploration', '5 C15',
             'Histories of remote_pickle.loads with patches on generated object graphs, some calls failing part-way (truncated stream, '
@@ -75,7 +74,7 @@ CHECKS = {
             'last child assignment afterwards, parent assignment rejected, next incarnation starts from the synchronised value.',
             F + 'state model vs ground truth'),
     'C17': ('exploration', '5 C17',
-            'restart() of persistent workers in states never-used / unread results / queued inputs / closed / died / killed / stuck, '
+            'restart() of persistent workers in states never-used / unread results / queued inputs / closed / died / killed / busy / stuck, '
             '1-3 consecutive restarts, with and without caller-supplied pipe; oracle: live equivalent worker, new identity, old child '
             'gone from the process table, fresh stream of fresh unique inputs only, RuntimeError only when unstoppable.',
             E + 'process-table + fresh-stream oracle'),
@@ -85,7 +84,7 @@ CHECKS = {
             'round trip after every operation.', E + 'reference (dictionary) model'),
     'C19': ('exploration', '5 C19',
             'Histories of create / wait / terminate / restart / active_children() from 1-3 simulated caller threads with an optional '
-            'autoclose block; interval oracle against the simulated process table, registry must not retain dead workers.',
+            'autoclose block, stuck workers and refused restarts, restart() descheduled at each of its lines while another thread calls active_children(); interval oracle against the simulated process table, registry must not retain dead workers.',
             E + 'interval oracle'),
     'C20': ('fault_enumeration', '5 C20',
             'Scripted server peer cutting both handshake messages at enumerated offsets with FIN/RST, refused control connection, '
